@@ -47,6 +47,15 @@ def programs(ctx):
             fut2 = {'part': part, 'head': ('norm', 'c', 1), 'body': [('p', ('patom', 'b', 0))]}
             for order in ([neg, ch, fut], [fut, ch, neg], [ch, neg, fut], [nfut, ch, fut2], [fut2, ch, nfut], [neg, nfut, ch, fut2]):
                 progs.append(('sign-order', order))
+    # fixed family: one predicate NAME as a future head with several arities, argument lists and classical signs (a future predicate is a name, an arity AND a sign)
+    for part in ('initial', 'always', 'dynamic'):
+        ch = {'part': 'always', 'head': ('choice', ['q', 'r']), 'body': []}
+        for h1, h2 in (('p(1)', 'p(1,2)'), ('p', 'p(1)'), ('p(1)', '-p(1,2)'), ('-p(1)', 'p(1)'), ('p(1)', 'p(2)')):
+            for d1, d2 in ((1, 1), (1, 2), (2, 1)):
+                r1 = {'part': part, 'head': ('norm', h1, d1), 'body': [('p', ('patom', 'q', 0))]}
+                r2 = {'part': part, 'head': ('norm', h2, d2), 'body': [('p', ('patom', 'r', 0))]}
+                progs.append(('one-name', [ch, r1, r2]))
+                progs.append(('one-name', [r2, ch, r1]))
     # fixed family: MORE look-ahead constraints of one depth in one part than that depth (every one of them has its temporary and its permanent copy)
     for part in ('initial', 'always', 'dynamic'):
         for d in (1, 2):
